@@ -169,7 +169,8 @@ def _process(ctx, binp, images, label, state, from_spec):
 
 def _mutants(ctx):
     """Every repaired rule and every recorded finding must be necessary: TLC has to refute the mutants."""
-    names = ["SizeOverflowChecked", "IdxRobust", "ZeroTail", "RolloverFlushes", "EmptyReported", "TruncClearsTail", "Unguarded"]
+    names = ["SizeOverflowChecked", "IdxRobust", "ZeroTail", "RolloverFlushes", "EmptyReported", "TruncClearsTail",
+             "RoRebuildStrict", "Unguarded"]
 
     def one(nm):
         return ctx.tlc("WalRecoveryMC", "walrec-mutant-%s.cfg" % nm, workers=3, label="mutant-" + nm,
@@ -218,14 +219,20 @@ def run(ctx):
         "the commit offset handed to recovery is not above the synced offset of the same node",
         "histories: rounds of appends + TruncateLog in front of the final appends, executed through the real calls; "
         "TruncateLog flushes the segment, so what it keeps is durable and what it cleared stays cleared in a crash image",
+        "answers of a reader: an entry, a report of damage (wrapped ErrDataCorrupted / ErrOffsetOutOfBounds of the record "
+        "validation or of a failed index rebuild) or 'no such offset' (the bare sentinels of the range checks); the last "
+        "one for an offset inside [FirstOffset, LastOffset] is the outcome 'hole', which the property excludes",
     ]
     binp = ctx.go_build("walrecover")
     state = {"kf": {}, "diffs": 0, "reported": 0, "sampled": {}}
 
     # 1 + 2 + 3: laws and export in one TLC run per configuration, then the real code, then TLC as judge
     # *-hist: pre-crash states that are the result of a history of appends and TruncateLog calls
-    cfgs = (["quick-v2", "quick-hist", "quick-v1"] if quick else
-            ["thorough-v2a", "thorough-hist", "thorough-hist2", "thorough-v2b", "thorough-v2c", "thorough-v1"])
+    # *-multi: logs of three segments with three records in each closed one; index files of the closed segments
+    # lost / damaged together with a damaged record (first, middle, last; older segment and the one in front of
+    # the current one) - the reopened WAL must report the damage, never serve a log with a gap
+    cfgs = (["quick-v2", "quick-multi", "quick-hist", "quick-v1"] if quick else
+            ["thorough-v2a", "thorough-multi", "thorough-hist", "thorough-hist2", "thorough-v2b", "thorough-v2c", "thorough-v1"])
     for c in cfgs:
         if not quick and ctx.left() < 420:
             ctx.log("budget: skipping configuration %s" % c)
